@@ -55,6 +55,7 @@ type c18Case struct {
 	Method string `json:"method,omitempty"`
 	Format string `json:"format,omitempty"`
 	First  int    `json:"first,omitempty"`
+	MaxLen int    `json:"max_len,omitempty"`
 }
 
 func c18Gen(tier string, emit func(c18Case)) {
@@ -67,7 +68,7 @@ func c18Gen(tier string, emit func(c18Case)) {
 	}
 	for _, f := range []string{"json", "xml", "form", "multipart", "query"} {
 		for first := 0; first < len(c18Bytes); first++ {
-			emit(c18Case{Kind: "malformed", Format: f, First: first})
+			emit(c18Case{Kind: "malformed", Format: f, First: first, MaxLen: map[string]int{"quick": 4, "thorough": 5}[tier]})
 		}
 	}
 }
@@ -265,7 +266,10 @@ func c18Run(c c18Case, st *fw.Stats) []fw.Viol {
 		}
 		binding.ResetValidator()
 	case "malformed":
-		maxLen := 4
+		maxLen := c.MaxLen
+		if maxLen == 0 {
+			maxLen = 4
+		}
 		var rec func(cur []byte)
 		rec = func(cur []byte) {
 			st.Evals++
@@ -336,11 +340,11 @@ var c18Spec = fw.Spec[c18Case]{
 	ID:      "C18",
 	Level:   "model_checking",
 	Workers: 1,
-	Rule: "complete enumeration: decision table 9 methods x 14 Content-Type strings x query present/absent, every source carrying a different value; round trip of all values of a struct over int{0,1,-7,2^31} x 9 strings (unicode, separators, markup, quotes) x bool x 4 int slices through query / urlencoded / multipart / JSON / XML; all byte strings of length <=4 over 14 bytes as body per format (must not panic; malformed JSON/XML must yield an error); validator on/off x 24 values on both sides of each rule; " +
+	Rule: "complete enumeration: decision table 9 methods x 14 Content-Type strings x query present/absent, every source carrying a different value; round trip of all values of a struct over int{0,1,-7,2^31} x 9 strings (unicode, separators, markup, quotes) x bool x 4 int slices through query / urlencoded / multipart / JSON / XML; all byte strings of length <=4 (thorough 5) over 14 bytes as body per format (must not panic; malformed JSON/XML must yield an error); validator on/off x 24 values on both sides of each rule; " +
 		"non-trivial = a table row / a round-tripped value / a malformed body",
 	Assume: []string{"media types that merely contain a canonical subtype as a substring (application/jsonp) are outside the alphabet", "runs single-threaded: the validator switch is package-global", "encoding/json and encoding/xml decide what 'malformed' means"},
 	Bounds: func(tier string) map[string]any {
-		return map[string]any{"methods": 9, "content_types": len(c18CTypes), "malformed_len": 4, "malformed_alphabet": len(c18Bytes)}
+		return map[string]any{"methods": 9, "content_types": len(c18CTypes), "malformed_len": map[string]int{"quick": 4, "thorough": 5}[tier], "malformed_alphabet": len(c18Bytes)}
 	},
 	Gen:   c18Gen,
 	Run:   c18Run,
